@@ -152,6 +152,15 @@ def step (cs : CfState) (fs : List String) (obs : String) : CfState × String ×
   | ["cf", "reset"] =>
     let st : State := { cfg := defaults, file := serialize defaults, restartNeeded := false }
     ({ st := st }, "ok " ++ stateStr st, "ok")
+  | ["cf", "loadfile", kind, arg] =>
+    -- a configuration file is accepted only if the proxy can run under it: every setting present, no unknown key, and the
+    -- values pass verify(); anything else is refused (and replaced by the defaults)
+    let okValue := kind = "ok" || (kind = "bad" && arg = "cache.lock_shards=7")
+    let want := if okValue then "accepted" else "rejected"
+    (cs, want, if obs = want then "ok"
+      else if obs.startsWith "accepted" then "bad:unworkable-configuration-file-accepted"
+      else if obs = "rejected" then "bad:workable-configuration-file-rejected"
+      else "bad:" ++ obs)
   | ["cf", "overwrite", name, tok] =>
     let v := parseTokVal tok
     let (st', notes) := overwrite cs.st name v
